@@ -8,9 +8,10 @@ sys.path.insert(0, os.path.join(ROOT, 'tools'))
 VRT_NOTE = ('Trusted base: g++ 12 -fsanitize=thread instrumentation (every atomic and plain access of the harness TU, cocls headers and inlined '
             'libstdc++ calls into our run-time), the vrt scheduler/HB detector/heap oracle in engine/vrt, the std shim in engine/shim. '
             'Interleavings are explored under sequential consistency up to the stated deviation bound; conflicting plain accesses are judged '
-            'by C++20 happens-before (release sequences, fences). compare_exchange_weak / condition variables do not fail or wake spuriously. '
+            'by C++20 happens-before (release sequences, fences); in every threaded check such a race counts as a violation when code written by the '
+            'library\'s user takes part in it (payload, critical section, coroutine body), library-internal races are C03\'s. compare_exchange_weak / condition variables do not fail or wake spuriously. '
             'Harness sizes (threads, operations) are the bound of the universal quantifier.')
-SEQ_NOTE = ('Trusted base: ASan/UBSan/_GLIBCXX_ASSERTIONS as crash oracles, the reference models written in the harness, the enumeration driver '
+SEQ_NOTE = ('Trusted base: ASan (with stack-use-after-return detection)/UBSan/_GLIBCXX_ASSERTIONS as crash oracles, the reference models written in the harness, the enumeration driver '
             'in engine/seqx. All histories/programs/configurations up to the stated depth are executed on fresh real objects; longer ones are not.')
 
 # property -> (engines, technique, level text, design ref)
